@@ -140,6 +140,10 @@ class Const(Expr):
     def subst(self, inst):
         return self
 
+# Priorities of the binary operators, following the grammar in parser2.
+op_priority = {'-->': 25, '|': 30, '&': 35, '==': 50, '!=': 50, '<=': 50, '<': 50,
+               '+': 65, '-': 65, '*': 70}
+
 class Op(Expr):
     """One of pre-specified operators."""
     def __init__(self, op, *args):
@@ -161,15 +165,34 @@ class Op(Expr):
     def __repr__(self):
         return "Op(%s,%s)" % (self.op, ",".join(repr(arg) for arg in self.args))
 
-    def __str__(self):
+    def priority(self):
+        """Priority of the operator, following the grammar in parser2."""
         if len(self.args) == 1:
-            return "%s%s" % (self.op, str(self.args[0]))
+            return 40 if self.op == '~' else 80
+        return op_priority.get(self.op, 50)
+
+    def __str__(self):
+        def priority(e):
+            return e.priority() if isinstance(e, Op) else 100
+
+        def ends_with_ite(e):
+            # The else branch of if-then-else extends as far as possible.
+            return isinstance(e, ITE) or (isinstance(e, Op) and ends_with_ite(e.args[-1]))
+
+        if len(self.args) == 1:
+            arg = str(self.args[0])
+            if isinstance(self.args[0], Op) and priority(self.args[0]) < (50 if self.op == '~' else 100):
+                arg = '(' + arg + ')'
+            return "%s%s" % (self.op, arg)
         elif len(self.args) == 2:
+            p = self.priority()
+            right_assoc = self.op in ('-->', '|', '&')
             arg1 = str(self.args[0])
             arg2 = str(self.args[1])
-            if self.op == '*' and isinstance(self.args[0], Op) and self.args[0].op in ('+', '-'):
+            p1, p2 = priority(self.args[0]), priority(self.args[1])
+            if p1 < p or (p1 == p and right_assoc) or ends_with_ite(self.args[0]):
                 arg1 = '(' + arg1 + ')'
-            if self.op == '*' and isinstance(self.args[1], Op) and self.args[1].op in ('+', '-'):
+            if p2 < p or (p2 == p and not right_assoc) or (isinstance(self.args[1], ITE) and p >= 50):
                 arg2 = '(' + arg2 + ')'
             return "%s %s %s" % (arg1, self.op, arg2)
         else:
